@@ -342,3 +342,113 @@ Proof.
       assert (Hz2 : size_aligned (TUnion (map ir_of ts)) - size (TUnion (map ir_of ts)) = 0) by (now apply size_aligned_packed).
       rewrite Hz1, Hz2, zeros_0. cbn [app mem_bytes]. now rewrite app_nil_r.
 Qed.
+
+(* ---- trivially decodable: every byte pattern of the right length is (the image of) a valid value *)
+Lemma trivial_dec_fields ts :
+  (fix go (l : list aty) := match l with [] => true | x :: r => trivial_dec x && go r end) ts = forallb trivial_dec ts.
+Proof. reflexivity. Qed.
+
+Lemma dec_implies_enc t : trivial_dec t = true -> trivial_enc t = true.
+Proof.
+  induction t using aty_ind'; intros Hd; try discriminate; try reflexivity; try (now apply IHt).
+  - cbn [trivial_dec trivial_enc] in *. rewrite trivial_dec_fields in Hd. rewrite trivial_enc_fields.
+    apply andb_true_iff in Hd. destruct Hd as [H1 H2]. rewrite H1. cbn [andb].
+    rewrite forallb_forall in *. rewrite Forall_forall in H. intros x Hx. apply H; [exact Hx | now apply H2].
+  - cbn [trivial_dec trivial_enc] in *. rewrite trivial_dec_fields in Hd. rewrite trivial_enc_fields.
+    apply andb_true_iff in Hd. destruct Hd as [H1 H2]. rewrite H1. cbn [andb].
+    rewrite forallb_forall in *. rewrite Forall_forall in H. intros x Hx. apply H; [exact Hx | now apply H2].
+Qed.
+
+Definition dec_sound_at (t : aty) : Prop :=
+  trivial_dec t = true -> forall b, bytes_ok b -> nlen b = size (ir_of t) ->
+  exists v, wtb t v = true /\ enc t v = b.
+
+Lemma bytes_ok_ntake n b : bytes_ok b -> bytes_ok (ntake n b).
+Proof. intros H. unfold ntake. apply Forall_forall. intros x Hx. rewrite Forall_forall in H. apply H. eapply In_firstn; eauto. Qed.
+Lemma bytes_ok_ndrop n b : bytes_ok b -> bytes_ok (ndrop n b).
+Proof. intros H. unfold ndrop. apply Forall_forall. intros x Hx. rewrite Forall_forall in H. apply H. eapply In_skipn; eauto. Qed.
+
+Lemma word_value k (b : list N) (bound : N) :
+  bytes_ok b -> length b = k -> 256 ^ N.of_nat k = bound ->
+  (be_val b <? bound) = true /\ be_bytes k (be_val b) = b.
+Proof.
+  intros Hok Hl Hb. split.
+  - apply N.ltb_lt. rewrite <- Hb, <- Hl. exact (be_val_bound b Hok).
+  - rewrite <- Hl. now apply be_bytes_be_val.
+Qed.
+
+Lemma chunks_sound t s :
+  (forall b, bytes_ok b -> nlen b = s -> exists v, wtb t v = true /\ enc t v = b) ->
+  forall (k : nat) b, bytes_ok b -> nlen b = N.of_nat k * s ->
+  exists vs, length vs = k /\ forallb (wtb t) vs = true /\ flat_map (enc t) vs = b.
+Proof.
+  intros Hone. induction k as [|k IH]; intros b Hok Hl.
+  - exists []. repeat split. symmetry. apply nlen_0. lia.
+  - assert (Hl1 : nlen (ntake s b) = s) by (rewrite nlen_ntake; lia).
+    destruct (Hone (ntake s b) (bytes_ok_ntake s b Hok) Hl1) as [v [Hv1 Hv2]].
+    destruct (IH (ndrop s b) (bytes_ok_ndrop s b Hok) ltac:(rewrite nlen_ndrop; lia)) as [vs [H1 [H2 H3]]].
+    exists (v :: vs). cbn [length forallb flat_map]. rewrite H1, Hv1, H2, Hv2, H3. repeat split. apply ntake_ndrop.
+Qed.
+
+Lemma fields_dec_sound ts :
+  Forall dec_sound_at ts -> forallb trivial_dec ts = true ->
+  Forall (fun t => size t mod 8 = 0) (map ir_of ts) ->
+  forall b, bytes_ok b -> nlen b = sum_aligned (map ir_of ts) ->
+  exists vs, wtb_fields ts vs = true /\ enc_fields ts vs = b.
+Proof.
+  induction 1 as [|t r Ht Hr IH]; intros Htr Hsz b Hok Hl.
+  - exists []. split; [reflexivity|]. symmetry. apply nlen_0. exact Hl.
+  - cbn [forallb] in Htr. apply andb_true_iff in Htr. destruct Htr as [Ht1 Ht2].
+    cbn [map] in Hsz, Hl. inversion Hsz as [|? ? Hs1 Hs2]; subst. cbn [sum_aligned] in Hl.
+    assert (Hal : size_aligned (ir_of t) = size (ir_of t)) by (unfold size_aligned; now apply round_up8_id).
+    rewrite Hal in Hl.
+    assert (Hl1 : nlen (ntake (size (ir_of t)) b) = size (ir_of t)) by (rewrite nlen_ntake; lia).
+    destruct (Ht Ht1 _ (bytes_ok_ntake _ b Hok) Hl1) as [v [Hv1 Hv2]].
+    destruct (IH Ht2 Hs2 (ndrop (size (ir_of t)) b) (bytes_ok_ndrop _ b Hok) ltac:(rewrite nlen_ndrop; lia)) as [vs [H1 H2]].
+    exists (v :: vs). cbn [wtb_fields enc_fields]. rewrite Hv1, H1, Hv2, H2. split; [reflexivity|]. apply ntake_ndrop.
+Qed.
+
+Lemma trivial_dec_sound_enc t : dec_sound_at t.
+Proof.
+  induction t using aty_ind'; unfold dec_sound_at; intros Htr b Hok Hl; try discriminate.
+  - (* unit *) exists VUnit. split; [reflexivity|]. symmetry. apply nlen_0. exact Hl.
+  - (* u8 *) destruct b as [|x [|y r]]; try (cbn in Hl; unfold nlen in Hl; cbn in Hl; lia).
+    inversion Hok; subst. unfold byte_ok in *. exists (VNum x). split; [cbn [wtb]; lia | cbn [enc]; now apply u8_byte].
+  - (* u64 *) assert (Hlen : length b = 8%nat) by (unfold nlen in Hl; cbn in Hl; lia).
+    destruct (word_value 8 b U64_MAX1 Hok Hlen eq_refl) as [H1 H2]. exists (VNum (be_val b)). split; assumption.
+  - (* u256 *) assert (Hlen : length b = 32%nat) by (unfold nlen in Hl; cbn in Hl; lia).
+    destruct (word_value 32 b U256_MAX1 Hok Hlen eq_refl) as [H1 H2]. exists (VNum (be_val b)). split; assumption.
+  - (* b256 *) assert (Hlen : length b = 32%nat) by (unfold nlen in Hl; cbn in Hl; lia).
+    destruct (word_value 32 b U256_MAX1 Hok Hlen eq_refl) as [H1 H2]. exists (VNum (be_val b)). split; assumption.
+  - (* array *) cbn [trivial_dec] in Htr. cbn [ir_of size] in Hl.
+    destruct (chunks_sound t (size (ir_of t)) (IHt Htr) (N.to_nat n) b Hok ltac:(lia)) as [vs [H1 [H2 H3]]].
+    exists (VSeq vs). cbn [wtb enc]. unfold enc_seq. rewrite H2, H3. split; [|reflexivity].
+    apply andb_true_iff. split; [|reflexivity]. unfold nlen. rewrite H1. lia.
+  - (* tuple *) cbn [trivial_dec] in Htr. rewrite trivial_dec_fields in Htr. apply andb_true_iff in Htr. destruct Htr as [Hid Hall].
+    destruct (ids_equal_inv _ Hid) as [_ [_ Hnp]]. rewrite ir_of_tuple in *. rewrite size_struct in Hl.
+    destruct (fields_dec_sound ts H Hall (struct_no_pad_sizes _ Hnp) b Hok Hl) as [vs [H1 H2]].
+    exists (VSeq vs). rewrite wtb_tuple, enc_tuple. split; assumption.
+  - (* struct *) cbn [trivial_dec] in Htr. rewrite trivial_dec_fields in Htr. apply andb_true_iff in Htr. destruct Htr as [Hid Hall].
+    destruct (ids_equal_inv _ Hid) as [_ [_ Hnp]]. rewrite ir_of_struct in *. rewrite size_struct in Hl.
+    destruct (fields_dec_sound ts H Hall (struct_no_pad_sizes _ Hnp) b Hok Hl) as [vs [H1 H2]].
+    exists (VSeq vs). rewrite wtb_struct, enc_struct. split; assumption.
+Qed.
+
+Lemma trivial_dec_sound t :
+  trivial_dec t = true -> forall b, bytes_ok b -> nlen b = size (ir_of t) ->
+  exists v, wtb t v = true /\ mem_bytes (ir_of t) (lower t v) = b /\ enc t v = b.
+Proof.
+  intros Hd b Hok Hl. destruct (trivial_dec_sound_enc t Hd b Hok Hl) as [v [H1 H2]].
+  exists v. split; [exact H1|]. split; [|exact H2].
+  rewrite (trivial_enc_sound t (dec_implies_enc t Hd) v H1). exact H2.
+Qed.
+
+(* TrivialBool / TrivialEnum *)
+Lemma trivial_bool_unwrap_rejects value : value <> 0 -> value <> 1 -> trivial_bool_unwrap value = Err REVERT_TRIVIAL_BOOL.
+Proof. intros H0 H1. unfold trivial_bool_unwrap. destruct (value =? 0) eqn:E0; [lia|]. destruct (value =? 1) eqn:E1; [lia|reflexivity]. Qed.
+Lemma trivial_enum_unknown_tag ts d : N.of_nat (length ts) <= d -> trivial_enum_is_valid ts d = false.
+Proof.
+  intros H. unfold trivial_enum_is_valid.
+  destruct (nth_error (map trivial_dec ts) (N.to_nat d)) eqn:E; [|reflexivity].
+  assert (N.to_nat d < length (map trivial_dec ts))%nat by (apply nth_error_Some; congruence). rewrite map_length in *. lia.
+Qed.
